@@ -221,7 +221,17 @@ def run_pool(tasks, jobs, progress=None, stall_s=None, _retry=True):
     from concurrent.futures import wait, FIRST_COMPLETED
     results = {}
     if stall_s is None:
-        stall_s = 3600 if any(t[3] == "thorough" for t in tasks) else 1500
+        # no unit legitimately runs longer than its budget (150 s quick, 600 s thorough; three times that in the second attempt):
+        # a pool in which nothing finishes for twice that long is stalled (seen on a loaded machine: a worker that never
+        # reports back); its pending units are abandoned and repeated once in a fresh pool
+        factor = float(os.environ.get("PYVC_BUDGET_FACTOR", "1"))
+        try:
+            import importlib
+            longest = max(importlib.import_module(t[1]).UNITS[t[2]].budget_s for t in tasks)
+        except Exception:
+            longest = 900
+        thorough = any(t[3] == "thorough" for t in tasks)
+        stall_s = max(330.0, 1.1 * longest * (4 if thorough else 1)) * max(1.0, factor)
     pool = ProcessPoolExecutor(max_workers=jobs, mp_context=mp.get_context("spawn"))
     try:
         futs = {pool.submit(_run_unit, m, n, tier, seed): (key, n) for key, m, n, tier, seed in tasks}
